@@ -2,6 +2,7 @@ import M3d.Lemmas.Bounded
 import M3d.Lemmas.BoundedPoly
 import M3d.Lemmas.BoundedStacked
 import M3d.Lemmas.BoundedPolyHull
+import M3d.Lemmas.BoundedPolyRect
 import Mathlib.Analysis.Real.Sqrt
 /-!
 # C03 — Solids never contain points outside their reported bounding box
@@ -458,6 +459,63 @@ example : (∀ c ∈ ([⟨1 / 1099511627776, mk3 1 0 0, 1⟩, ⟨1099511627776, 
   intro c hc
   simp only [List.mem_cons, List.not_mem_nil, or_false] at hc
   rcases hc with rfl | rfl | rfl | rfl <;> norm_num
+
+/-! ## `NewConvexPolytopeRect`: the polytope of a rect is the rect -/
+
+/-- **`rect_polytope_contains`.**  `NewConvexPolytopeRect(min, max).Contains(p)` — the half-space test of the six
+(3-D) / four (2-D) axis constraints `rectCons3/rectCons2`, which the tie
+`M3d.KernelsTie.Polytope.newConvexPolytopeRect` proves to be the constraints of the regenerated source — is the box
+test `min ≤ p ≤ max` (`Rect.Contains`, `InBounds`): containment in the rect polytope *is* being inside the declared
+box, for every `min, max` (inverted ones included: both are empty). -/
+theorem rect_polytope_contains (lo hi p : Pt K) :
+    polyContains (rectCons3 lo hi) p = inB true ⟨lo, hi⟩ p ∧
+    polyContains (rectCons2 lo hi) p = inB false ⟨lo, hi⟩ p :=
+  ⟨polyContains_rect3 lo hi p, polyContains_rect2 lo hi p⟩
+
+/-- **`rect_polytope_mesh_box`.**  For `min ≤ max` the vertices that `Mesh()` enumerates for
+`NewConvexPolytopeRect(min, max)` are exactly the corners (the 12 of 20 index triples with two constraints of the same
+axis have determinant `0 < rawArea·tol` and are rejected; the other 8 have `|det| = 1 ≥ tol` and solve to a corner,
+which no other constraint rejects because `spatialEpsilon ≥ 0`), so the box `Solid()` reports — `Mesh().Min()/Max()`
+in the model of the vertex enumeration — is `[min, max]` itself.  `tol` is the conditioning literal (`1e-8` in the
+source; needed: `0 < tol ≤ 1`).  2-D: the unused third slot of the box is `0`. -/
+theorem rect_polytope_mesh_box (sq : K → K) (hsq : SqrtOK sq) (tol : K) (h0 : 0 < tol) (h1 : tol ≤ 1) (lo hi : Pt K)
+    (hx : lo.x ≤ hi.x) (hy : lo.y ≤ hi.y) :
+    (lo.z ≤ hi.z → vertsBox (meshVerts3 sq tol (rectCons3 lo hi)) = ⟨lo, hi⟩) ∧
+    vertsBox (meshVerts2 sq tol (rectCons2 lo hi)) = ⟨mk3 lo.x lo.y 0, mk3 hi.x hi.y 0⟩ :=
+  ⟨fun hz => vertsBox_rect3 sq hsq tol h0 h1 lo hi hx hy hz, vertsBox_rect2 sq hsq tol h0 h1 lo hi hx hy⟩
+
+/-- **`wrapper_does_not_cut_polytope_rect`.**  `NewConvexPolytopeRect(min, max).Solid()` (box = that of the
+vertices the model of `Mesh()` enumerates, membership = `InBounds && ConvexPolytope.Contains`) contains exactly the
+points of `[min, max]`, for every `min, max`: nothing outside the declared rect is contained and nothing inside it is
+cut.  This is what kind `prect` demands of the implementation. -/
+theorem wrapper_does_not_cut_polytope_rect (sq : K → K) (hsq : SqrtOK sq) (eps tol : K) (h0 : 0 < tol) (h1 : tol ≤ 1)
+    (lo hi p : Pt K) :
+    (SolidExpr.polytope true (vertsBox (meshVerts3 sq tol (rectCons3 lo hi))) (rectCons3 lo hi)).contains sq eps p =
+      inB true ⟨lo, hi⟩ p ∧
+    (SolidExpr.polytope false (vertsBox (meshVerts2 sq tol (rectCons2 lo hi))) (rectCons2 lo hi)).contains sq eps p =
+      inB false ⟨lo, hi⟩ p := by
+  simp only [SolidExpr.contains, SolidExpr.eval]
+  exact ⟨rectPolyS3_contains sq hsq tol h0 h1 lo hi p, rectPolyS2_contains sq hsq tol h0 h1 lo hi p⟩
+
+/-- non-vacuity of `rect_polytope_mesh_box` / `wrapper_does_not_cut_polytope_rect` (`ℝ`, `Real.sqrt`, the literal
+`1e-8`): the solid of `NewConvexPolytopeRect((0,0,0), (1,2,3))` reports `[(0,0,0), (1,2,3)]` and contains its corner
+`(1,2,3)` but not `(1,2,4)`. -/
+example :
+    vertsBox (meshVerts3 Real.sqrt (1e-8 : ℝ) (rectCons3 (mk3 0 0 0) (mk3 1 2 3))) = ⟨mk3 0 0 0, mk3 1 2 3⟩ ∧
+    (SolidExpr.polytope true (vertsBox (meshVerts3 Real.sqrt (1e-8 : ℝ) (rectCons3 (mk3 0 0 0) (mk3 1 2 3))))
+      (rectCons3 (mk3 0 0 0) (mk3 1 2 3))).contains Real.sqrt (1e-8 : ℝ) (mk3 1 2 3) = true ∧
+    (SolidExpr.polytope true (vertsBox (meshVerts3 Real.sqrt (1e-8 : ℝ) (rectCons3 (mk3 0 0 0) (mk3 1 2 3))))
+      (rectCons3 (mk3 0 0 0) (mk3 1 2 3))).contains Real.sqrt (1e-8 : ℝ) (mk3 1 2 4) = false := by
+  have hsq : SqrtOK Real.sqrt := fun x hx => ⟨Real.sqrt_nonneg x, Real.mul_self_sqrt hx⟩
+  have h0 : (0 : ℝ) < 1e-8 := by norm_num
+  have h1 : (1e-8 : ℝ) ≤ 1 := by norm_num
+  refine ⟨(rect_polytope_mesh_box Real.sqrt hsq _ h0 h1 (mk3 0 0 0) (mk3 1 2 3) (by simp [mk3]) (by simp [mk3])).1
+    (by simp [mk3]), ?_, ?_⟩
+  · rw [(wrapper_does_not_cut_polytope_rect Real.sqrt hsq _ _ h0 h1 _ _ _).1]
+    simp [inB, axisOk, mk3, Pt.get]
+  · rw [(wrapper_does_not_cut_polytope_rect Real.sqrt hsq _ _ h0 h1 _ _ _).1]
+    simp [inB, axisOk, mk3, Pt.get]
+    norm_num
 
 /-! ## Primitive leaves with closed forms -/
 
